@@ -221,6 +221,8 @@ func (g *gen) sessOut() {
 	}
 	g.p("Definition so_se_literals : list bytes := %s.\n", soList(lits))
 
+	g.rawReaderFacts()
+
 	g.p("\n(* ---- internal/attr/idgen.go, internal/stream/stream.go ---- *)\n")
 	idlen := -1
 	ast.Inspect(idg, func(n ast.Node) bool {
@@ -259,4 +261,158 @@ func (g *gen) sessOut() {
 		g.errs = append(g.errs, "internal/stream/stream.go: const closeStreamTag not found")
 	}
 	g.p("Definition so_close_tag : bytes := hex \"%s\".\n", hexOf([]byte(ct)))
+}
+
+// soSelIs reports whether e is the selector <anything>.<field>.
+func soSelIs(e ast.Expr, field string) bool {
+	sel, is := e.(*ast.SelectorExpr)
+	return is && sel.Sel.Name == field
+}
+
+// soIsRDepth reports whether e is exactly r.depth.
+func soIsRDepth(e ast.Expr) bool {
+	sel, is := e.(*ast.SelectorExpr)
+	if !is || sel.Sel.Name != "depth" {
+		return false
+	}
+	id, is := sel.X.(*ast.Ident)
+	return is && id.Name == "r"
+}
+
+// rawReaderFacts reads from internal/marshal/encode.go how
+// (*rawTokenReader).Token maintains its stack of prefix bindings: the order of
+// depth increment and push on a start element, the order of pop and depth
+// decrement and the pop condition on an end element, and the direction in
+// which a prefix is looked up.
+func (g *gen) rawReaderFacts() {
+	g.p("\n(* ---- internal/marshal/encode.go rawTokenReader.Token: the binding stack ---- *)\n")
+	f := g.parse("internal/marshal/encode.go")
+	if f == nil {
+		return
+	}
+	var fd *ast.FuncDecl
+	for _, d := range f.Decls {
+		x, is := d.(*ast.FuncDecl)
+		if !is || x.Name.Name != "Token" || x.Recv == nil || len(x.Recv.List) != 1 {
+			continue
+		}
+		t := x.Recv.List[0].Type
+		if st, is := t.(*ast.StarExpr); is {
+			t = st.X
+		}
+		if id, is := t.(*ast.Ident); is && id.Name == "rawTokenReader" {
+			fd = x
+		}
+	}
+	bad := func(what string) {
+		g.errs = append(g.errs, "internal/marshal/encode.go: rawTokenReader.Token: "+what)
+	}
+	if fd == nil {
+		bad("method not found")
+		return
+	}
+	var startCase, endCase *ast.CaseClause
+	ast.Inspect(fd, func(n ast.Node) bool {
+		cc, is := n.(*ast.CaseClause)
+		if !is || len(cc.List) != 1 {
+			return true
+		}
+		if sel, is := cc.List[0].(*ast.SelectorExpr); is {
+			switch sel.Sel.Name {
+			case "StartElement":
+				startCase = cc
+			case "EndElement":
+				endCase = cc
+			}
+		}
+		return true
+	})
+	if startCase == nil || endCase == nil {
+		bad("cases for xml.StartElement / xml.EndElement not found")
+		return
+	}
+	// start element: r.depth++ and the loop that appends bindings tagged r.depth
+	incIdx, pushIdx := -1, -1
+	for i, st := range startCase.Body {
+		if ids, is := st.(*ast.IncDecStmt); is && ids.Tok == token.INC && soIsRDepth(ids.X) && incIdx < 0 {
+			incIdx = i
+		}
+		if pushIdx < 0 {
+			ast.Inspect(st, func(n ast.Node) bool {
+				if call, is := n.(*ast.CallExpr); is {
+					if id, is := call.Fun.(*ast.Ident); is && id.Name == "append" && len(call.Args) > 0 && soSelIs(call.Args[0], "ns") {
+						pushIdx = i
+					}
+				}
+				return true
+			})
+		}
+	}
+	if incIdx < 0 || pushIdx < 0 {
+		bad("depth increment or push of bindings not found in the start element case")
+	}
+	// the lookup: the loop whose body compares <x>.prefix with the attribute's space
+	lookups, innermost := 0, false
+	ast.Inspect(startCase, func(n ast.Node) bool {
+		var body *ast.BlockStmt
+		reverse := false
+		switch l := n.(type) {
+		case *ast.ForStmt:
+			body = l.Body
+			if post, is := l.Post.(*ast.IncDecStmt); is && post.Tok == token.DEC {
+				if as, is := l.Init.(*ast.AssignStmt); is && len(as.Rhs) == 1 {
+					if be, is := as.Rhs[0].(*ast.BinaryExpr); is && be.Op == token.SUB {
+						if call, is := be.X.(*ast.CallExpr); is {
+							if id, is := call.Fun.(*ast.Ident); is && id.Name == "len" {
+								reverse = true
+							}
+						}
+					}
+				}
+			}
+		case *ast.RangeStmt:
+			body = l.Body
+		default:
+			return true
+		}
+		direct := false
+		for _, st := range body.List {
+			if ifs, is := st.(*ast.IfStmt); is {
+				if be, is := ifs.Cond.(*ast.BinaryExpr); is && be.Op == token.EQL && (soSelIs(be.X, "prefix") || soSelIs(be.Y, "prefix")) {
+					direct = true
+				}
+			}
+		}
+		if direct {
+			lookups++
+			innermost = reverse
+		}
+		return true
+	})
+	if lookups != 1 {
+		bad("expected exactly one prefix lookup loop")
+	}
+	// end element: the pop loop and r.depth--
+	popIdx, decIdx, cmp, rhsDepth := -1, -1, "", false
+	for i, st := range endCase.Body {
+		if ids, is := st.(*ast.IncDecStmt); is && ids.Tok == token.DEC && soIsRDepth(ids.X) && decIdx < 0 {
+			decIdx = i
+		}
+		if fs, is := st.(*ast.ForStmt); is && popIdx < 0 && fs.Cond != nil {
+			ast.Inspect(fs.Cond, func(n ast.Node) bool {
+				if be, is := n.(*ast.BinaryExpr); is && soSelIs(be.X, "depth") && !soIsRDepth(be.X) {
+					popIdx, cmp, rhsDepth = i, be.Op.String(), soIsRDepth(be.Y)
+				}
+				return true
+			})
+		}
+	}
+	if popIdx < 0 || decIdx < 0 {
+		bad("pop loop or depth decrement not found in the end element case")
+	}
+	g.p("Definition so_raw_push_after_inc : bool := %v.\n", incIdx >= 0 && incIdx < pushIdx)
+	g.p("Definition so_raw_lookup_innermost : bool := %v.\n", innermost)
+	g.p("Definition so_raw_pop_before_dec : bool := %v.\n", popIdx >= 0 && popIdx < decIdx)
+	g.p("Definition so_raw_pop_cmp : bytes := hex \"%s\".\n", hexOf([]byte(cmp)))
+	g.p("Definition so_raw_pop_rhs_is_depth : bool := %v.\n", rhsDepth)
 }
